@@ -40,13 +40,13 @@ def load_contracts():
 
 
 @task("verify")
-def t_verify(tier, fq, replay=None):
+def t_verify(tier, fq, replay=None, part=None, nparts=None):
     from .contract import verify, REGISTRY
 
     load_contracts()
     spec = REGISTRY[fq]
-    r = verify(spec, tier)
-    tr = TaskResult("verify:" + fq)
+    r = verify(spec, tier, part=(part, nparts) if nparts else None)
+    tr = TaskResult("verify:" + fq + ("" if not nparts else "[%d/%d]" % (part, nparts)))
     for ob in r.obligations:
         d = ob.to_dict()
         rp = spec.replay_hint(ob) if hasattr(spec, "replay_hint") else None
@@ -340,4 +340,40 @@ def t_table_c14(tier, filler, chunk, nchunks):
             except Exception:
                 continue
             tr.functions.append({"function": fq, "file": fi.module.path, "lines": list(fi.span()), "sha256": fi.sha256(), "level": "proof", "role": "real AST executed on the literal table (%d calls)" % T.calls[fq]})
+    return tr
+
+
+@task("lemma_arith")
+def t_lemma_arith(tier, max_n=2):
+    """spec-level lemmas over the arithmetic contracts (log domain), see contracts/arith.py"""
+    load_contracts()
+    from contracts.arith import arith_lemmas
+
+    tr = TaskResult("lemma_arith")
+    for name, props, hyp, goal in arith_lemmas(3 if tier == "thorough" else max_n):
+        ob = Obligation(name, props, "lemma")
+        s = z3.Solver()
+        s.set("timeout", 60000 if tier == "thorough" else 20000)
+        for h in hyp:
+            s.add(h)
+        s.add(z3.Not(goal))
+        t0 = time.time()
+        r = s.check()
+        ob.ms = (time.time() - t0) * 1000
+        ob.smt_size = len(s.sexpr())
+        ob.status = "discharged" if r == z3.unsat else ("refuted" if r == z3.sat else "unknown")
+        if r == z3.sat:
+            from .engine import model_to_dict
+
+            ob.model = model_to_dict(s.model())
+        tr.obligations.append(ob.to_dict())
+        # canary: without its hypotheses (exponent-1 matching, one quantity type per unit) the lemma must be refutable
+        if "magnitude-product/shape(1,1)" in name or "physical-sum/shape(1,1)" in name:
+            s2 = z3.Solver()
+            s2.set("timeout", 20000)
+            s2.add(z3.Not(goal))
+            r2 = s2.check()
+            tr.extra.setdefault("canaries", []).append({"name": "canary[%s without hypotheses]" % name, "expected": "sat", "got": str(r2)})
+            if r2 != z3.sat:
+                tr.error = "canary failed: %s is provable without its hypotheses (vacuous encoding?)" % name
     return tr
